@@ -1,5 +1,6 @@
 import Imdlv.Model.Peer
 import Imdlv.Lemmas.Peer
+import Imdlv.Lemmas.HonestConcrete
 /-!
 # C11 — metadata fetched from peers is authentic, and honest peers are understood
 
@@ -234,20 +235,21 @@ theorem pieces_complete (R : Readers ι) (H : Bytes → δ) (target : δ) (serve
     (hsize : h.metadataSize = some served.length)
     (hinfo : R.info served = some info) (hhash : H (R.serialize info) = target)
     (noise : Nat → List Item) (body : Nat → Bytes) (ts : Nat → Option Nat) (off : Nat → Nat)
-    (hnoise : ∀ k, Noise (noise k))
-    (hframed : ∀ k, (body k).length + 2 < 2 ^ 32)
-    (hut : ∀ k, R.utMsg (body k) = some ({ msgType := 1, piece := k, totalSize := ts k }, off k))
-    (hdata : ∀ k, (body k).drop (off k) = chunk served k) :
-    ∀ (n i : Nat) (c : Client) (tail : Bytes) (F : Nat),
+    (hnoise : ∀ k, Noise (noise k)) (N : Nat)
+    (hframed : ∀ k, k < N → (body k).length + 2 < 2 ^ 32)
+    (hut : ∀ k, k < N → R.utMsg (body k) = some ({ msgType := 1, piece := k, totalSize := ts k }, off k))
+    (hdata : ∀ k, k < N → (body k).drop (off k) = chunk served k) :
+    ∀ (n i : Nat) (c : Client) (tail : Bytes) (F : Nat), i + n ≤ N →
       0 < n → (i + n - 1) * Consts.utPieceLength < served.length → served.length ≤ (i + n) * Consts.utPieceLength →
       c.buf = served.take (i * Consts.utPieceLength) → c.hs = some h →
       fetchLoop R H target (cost noise n i + F) c (piecesFrom noise body n i ++ tail)
         = .ok info (c.requests ++ (List.range' (i + 1) (n - 1))) := by
   intro n
   induction n with
-  | zero => intro i c tail F h0; omega
+  | zero => intro i c tail F _ h0; omega
   | succ n ih =>
-    intro i c tail F _ hlo hhi hbuf hhs
+    intro i c tail F hN _ hlo hhi hbuf hhs
+    have hiN : i < N := by omega
     have hP : Consts.utPieceLength = 16384 := by decide
     have hk : i * Consts.utPieceLength < served.length := by
       have : i * Consts.utPieceLength ≤ (i + (n + 1) - 1) * Consts.utPieceLength := Nat.mul_le_mul_right _ (by omega)
@@ -255,8 +257,8 @@ theorem pieces_complete (R : Readers ι) (H : Bytes → δ) (target : δ) (serve
     simp only [piecesFrom, cost, List.append_assoc]
     have e : msgCount (noise i) + 1 + cost noise n (i + 1) + F = msgCount (noise i) + ((cost noise n (i + 1) + F) + 1) := by omega
     rw [e, fetchLoop_noise R H target c (noise i) (hnoise i), fetchLoop_unfold,
-      recvC_frame _ _ (extMsg_framed _ _ (hframed i))]
-    simp only [step_data R H target served info h hsize hinfo hhash i hk c hbuf hhs (body i) (ts i) (off i) (hut i) (hdata i)]
+      recvC_frame _ _ (extMsg_framed _ _ (hframed i hiN))]
+    simp only [step_data R H target served info h hsize hinfo hhash i hk c hbuf hhs (body i) (ts i) (off i) (hut i hiN) (hdata i hiN)]
     by_cases hlast : served.length ≤ (i + 1) * Consts.utPieceLength
     · -- this was the last piece
       have hn0 : n = 0 := by
@@ -273,7 +275,7 @@ theorem pieces_complete (R : Readers ι) (H : Bytes → δ) (target : δ) (serve
         have : n = 0 := by omega
         subst this
         exact hlast hhi
-      have := ih (i + 1) { c with buf := served.take ((i + 1) * Consts.utPieceLength), requests := c.requests ++ [i + 1] } tail F hnpos
+      have := ih (i + 1) { c with buf := served.take ((i + 1) * Consts.utPieceLength), requests := c.requests ++ [i + 1] } tail F (by omega) hnpos
         (by have : i + 1 + n - 1 = i + (n + 1) - 1 := by omega
             rw [this]; exact hlo)
         (by have : i + 1 + n = i + (n + 1) := by omega
@@ -302,9 +304,9 @@ theorem honest_complete (R : Readers ι) (H : Bytes → δ) (target : δ) (serve
     (hhs : R.handshake hsBody = some h)
     (noise : Nat → List Item) (body : Nat → Bytes) (ts : Nat → Option Nat) (off : Nat → Nat)
     (hnoise : ∀ k, Noise (noise k))
-    (hframed : ∀ k, (body k).length + 2 < 2 ^ 32)
-    (hut : ∀ k, R.utMsg (body k) = some ({ msgType := 1, piece := k, totalSize := ts k }, off k))
-    (hdata : ∀ k, (body k).drop (off k) = chunk served k)
+    (hframed : ∀ k, k < pieceCount served → (body k).length + 2 < 2 ^ 32)
+    (hut : ∀ k, k < pieceCount served → R.utMsg (body k) = some ({ msgType := 1, piece := k, totalSize := ts k }, off k))
+    (hdata : ∀ k, k < pieceCount served → (body k).drop (off k) = chunk served k)
     (tail : Bytes) (F : Nat) :
     fetchLoop R H target (msgCount pre + 1 + cost noise (pieceCount served) 0 + F) Client.init
         (wire pre ++ frame (extMsg 0 hsBody) ++ piecesFrom noise body (pieceCount served) 0 ++ tail)
@@ -330,8 +332,8 @@ theorem honest_complete (R : Readers ι) (H : Bytes → δ) (target : δ) (serve
       | some _ => rfl
     simp [this, Client.init]
   simp only [hstep]
-  have := pieces_complete R H target served info h hsize hinfo hhash noise body ts off hnoise hframed hut hdata
-    (pieceCount served) 0 { Client.init with hs := some h, requests := [0] } tail F hn hlo hhi (by simp [Client.init]) rfl
+  have := pieces_complete R H target served info h hsize hinfo hhash noise body ts off hnoise (pieceCount served) hframed hut hdata
+    (pieceCount served) 0 { Client.init with hs := some h, requests := [0] } tail F (by omega) hn hlo hhi (by simp [Client.init]) rfl
   rw [this]
   congr 1
   simp only [List.singleton_append]
@@ -395,9 +397,9 @@ theorem honest_fetch (R : Readers ι) (H : Bytes → δ) (H20 : δ → Bytes) (t
     (hhs : R.handshake hsBody = some h)
     (noise : Nat → List Item) (body : Nat → Bytes) (ts : Nat → Option Nat) (off : Nat → Nat)
     (hnoise : ∀ k, Noise (noise k))
-    (hframed : ∀ k, (body k).length + 2 < 2 ^ 32)
-    (hut : ∀ k, R.utMsg (body k) = some ({ msgType := 1, piece := k, totalSize := ts k }, off k))
-    (hdata : ∀ k, (body k).drop (off k) = chunk served k)
+    (hframed : ∀ k, k < pieceCount served → (body k).length + 2 < 2 ^ 32)
+    (hut : ∀ k, k < pieceCount served → R.utMsg (body k) = some ({ msgType := 1, piece := k, totalSize := ts k }, off k))
+    (hdata : ∀ k, k < pieceCount served → (body k).drop (off k) = chunk served k)
     (tail : Bytes) :
     fetch R H H20 target
         ((Consts.peerHeader ++ reserved ++ H20 target ++ peerId) ++
@@ -430,6 +432,59 @@ theorem honest_fetch (R : Readers ι) (H : Bytes → δ) (H20 : δ → Bytes) (t
   rw [← hS]
   exact honest_complete R H target served info h hpos hsize hid hinfo hhash pre hsBody hpre hhsFramed hhs noise body ts off
     hnoise hframed hut hdata tail 0
+
+/-! ## the same for the concrete serde/bendy readers of the model -/
+
+/-- **Honest peers are understood — concrete readers**: for every info dictionary `i` made of the keys
+imdl models (`InfoM.Typed`: UTF-8 text, 16-byte MD5 digests, `pieces` a multiple of 20, sizes in
+range, update URL accepted by the URL parser), served as its canonical encoding by a peer that writes
+the extension handshake and the data headers as canonical bencode, with any `ut_metadata` id below
+256, the model's client (`readersC`) fetches exactly `i`; the link's hash is the hash of the served
+bytes. No hypothesis about the readers is left — only the hash function is abstract. -/
+theorem honest_fetch_concrete (urlOk : Bytes → Bool) (H : Bytes → δ) (H20 : δ → Bytes) (i : Metainfo.InfoM)
+    (hi : i.Typed urlOk) (k : Nat) (hk : k < 256)
+    (hbig : (Bencode.encode i.toBVal).length < 2 ^ 31)
+    (reserved peerId : Bytes) (ht : (H20 (H (Bencode.encode i.toBVal))).length = 20) (hr : reserved.length = 8)
+    (hbit : reserved.getD 5 0 &&& UInt8.ofNat Consts.extensionBit ≠ 0) (hp : peerId.length = 20)
+    (pre : List Item) (hpre : Noise pre) (noise : Nat → List Item) (hnoise : ∀ j, Noise (noise j)) (tail : Bytes) :
+    let served := Bencode.encode i.toBVal
+    fetch (readersC urlOk) H H20 (H served)
+        ((Consts.peerHeader ++ reserved ++ H20 (H served) ++ peerId) ++
+          (wire pre ++ frame (extMsg 0 (hsBodyOf k served.length)) ++
+            piecesFrom noise (fun j => utBodyOf j served.length (chunk served j)) (pieceCount served) 0 ++ tail))
+      = .ok i (List.range (pieceCount served)) := by
+  intro served
+  have hP : Consts.utPieceLength = 16384 := by decide
+  have hpos : 0 < served.length := by
+    have := Bencode.encode_length_ge i.toBVal
+    show 0 < (Bencode.encode i.toBVal).length
+    omega
+  have hlen63 : served.length < 2 ^ 63 := by
+    show (Bencode.encode i.toBVal).length < 2 ^ 63
+    omega
+  have hchunk : ∀ j, (chunk served j).length ≤ 16384 := by
+    intro j; unfold chunk; rw [List.length_take, hP]; omega
+  have hnp : pieceCount served < 2 ^ 63 := by
+    unfold pieceCount; rw [hP]; omega
+  have key := honest_fetch (readersC urlOk) H H20 (H served) served i
+    { metadataSize := some served.length, utMetadataId := some k } reserved peerId ht hr hbit hp hpos rfl rfl
+    (Metainfo.readInfoC_toBVal urlOk i hi) rfl pre (hsBodyOf k served.length) hpre
+    (by have := hsBody_length k served.length (by omega) hlen63; omega)
+    (by have := readHandshakeC_honest k served.length hk hlen63 []
+        simpa [readersC] using this)
+    noise (fun j => utBodyOf j served.length (chunk served j)) (fun _ => some served.length)
+    (fun j => (Bencode.encode (.dict (utDict j served.length))).length) hnoise
+    (by intro j hj
+        have := utHeader_length j served.length (by omega) hlen63
+        have := hchunk j
+        simp only [utBodyOf, List.length_append]
+        omega)
+    (by intro j hj
+        exact readUtMsgC_honest j served.length (by omega) hlen63 (chunk served j))
+    (by intro j _
+        exact utBody_drop j served.length (chunk served j))
+    tail
+  exact key
 
 /-! ## Non-vacuity -/
 example : recv 5 ([0,0,0,0] ++ [0,0,0,0] ++ [0,0,0,3, 20, 7, 8] ++ [9]) = some (⟨20, some [7, 8]⟩, [9]) := by
